@@ -19,6 +19,9 @@ This file proves, for every number of environments, agents and all shapes:
 The member loops of the Dict / Tuple branches are translated and type-checked; their equalities are proved on the
 slices (`gen_slice0_eq`, `gen_slice1_eq`) and checked on concrete instances (`example`s at the end); the general
 loop equalities for Dict / Tuple are NOT proved here (correspondence suite `shm-direct` covers them).
+Added later (end of file): the general equality for the Dict branch of `write_to_shared_memory` — any number of agents
+with Dict spaces of any number of keys (`gen_write_dict_eq`, `gen_write_dict_getElem?`, `memberWrite_getElem?`); the
+Tuple branch of the writer and the Dict / Tuple loops of `Observations.__init__ / __getitem__` remain `decide` examples.
 -/
 namespace VecEnv
 open VecRecvGen
@@ -302,5 +305,179 @@ example : (Observations.init (α := Nat) ⟨[some (.dict [[0, 0, 7, 8], [0, 9]])
     (fun o => Observations.getitem o 0) = some (.dict [⟨[2, 2], [0, 0, 7, 8]⟩, ⟨[2, 1], [0, 9]⟩]) := by decide
 example : (create_shared_memory (α := Nat) 2 ⟨[some (.tuple [⟨[2]⟩, ⟨[]⟩]), some (.box [3])]⟩) =
     some ⟨[some (.tuple [[0, 0, 0, 0], [0, 0]]), some (.leaf [0, 0, 0, 0, 0, 0])]⟩ := by decide
+
+/-! ## the Dict branch of `write_to_shared_memory`, any number of agents and any number of keys -/
+
+/-- agents whose values are all `OrderedDict`s (Dict spaces) -/
+def dictDict (xs : List (List β)) : PyDict (Struct β) := ⟨xs.map (fun x => some (.dict x))⟩
+def dictSpaces (subss : List (List SubSpace)) : PyDict Space := ⟨subss.map (fun s => some (.dict s))⟩
+
+theorem foldlM_pointwiseD (F : PyDict (Struct γ) → Nat × Struct β → Option (PyDict (Struct γ)))
+    (g : Nat → List β → List γ → List γ) (P : Nat → List β → List γ → Prop)
+    (hF : ∀ (bs : List (List γ)) (k : Nat) (x : List β) (b : List γ), bs[k]? = some b → P k x b →
+      F (dictDict bs) (k, .dict x) = some (dictDict (bs.set k (g k x b)))) :
+    ∀ (xs : List (List β)) (k0 : Nat) (bs : List (List γ)), k0 + xs.length ≤ bs.length →
+      (∀ j x b, xs[j]? = some x → bs[k0 + j]? = some b → P (k0 + j) x b) →
+      ((xs.zipIdx k0).map (fun p => (p.2, Struct.dict p.1))).foldlM F (dictDict bs) =
+        some (dictDict ((xs.zipIdx k0).foldl (fun bs p => bs.modify p.2 (g p.2 p.1)) bs)) := by
+  intro xs
+  induction xs with
+  | nil => intro k0 bs _ _; rfl
+  | cons x xs ih =>
+    intro k0 bs h hP
+    have hk : k0 < bs.length := by simp at h; omega
+    simp only [List.zipIdx_cons, List.map_cons, List.foldlM_cons, List.foldl_cons]
+    rw [hF bs k0 x bs[k0] (List.getElem?_eq_getElem hk) (hP 0 x _ rfl (by simp))]
+    simp only [Option.bind_eq_bind, Option.bind_some]
+    rw [ih (k0 + 1) _ (by simp at h ⊢; omega)]
+    · congr 3
+      rw [List.modify_eq_set_getElem?, List.getElem?_eq_getElem hk]
+      rfl
+    · intro j x' b hx hb
+      have := hP (j + 1) x' b (by simpa using hx)
+        (by rw [List.getElem?_set_ne (by omega)] at hb; rw [← hb]; congr 1; omega)
+      rw [show k0 + 1 + j = k0 + (j + 1) by omega]; exact this
+
+/-- the loop over the members of one agent's Dict space: member `j` of agent `k`'s entry is rewritten -/
+theorem foldlM_members (F : PyDict (Struct γ) → DKey × SubSpace → Option (PyDict (Struct γ))) (k : Nat)
+    (g : Nat → SubSpace → γ → γ) (P : Nat → SubSpace → γ → Prop)
+    (hF : ∀ (bs : List (List γ)) (mb : List γ) (j : Nat) (sub : SubSpace) (b : γ),
+      bs[k]? = some mb → mb[j]? = some b → P j sub b →
+      F (dictDict bs) (⟨j⟩, sub) = some (dictDict (bs.set k (mb.set j (g j sub b))))) :
+    ∀ (subs : List SubSpace) (j0 : Nat) (bs : List (List γ)) (mb : List γ), bs[k]? = some mb →
+      j0 + subs.length ≤ mb.length →
+      (∀ j sub b, subs[j]? = some sub → mb[j0 + j]? = some b → P (j0 + j) sub b) →
+      ((subs.zipIdx j0).map (fun p => ((⟨p.2⟩ : DKey), p.1))).foldlM F (dictDict bs) =
+        some (dictDict (bs.set k ((subs.zipIdx j0).foldl (fun mb p => mb.modify p.2 (g p.2 p.1)) mb))) := by
+  intro subs
+  induction subs with
+  | nil =>
+    intro j0 bs mb hb _ _
+    simp only [List.zipIdx_nil, List.map_nil, List.foldlM_nil, List.foldl_nil, Option.pure_def]
+    have hk : k < bs.length := (List.getElem?_eq_some_iff.1 hb).1
+    have e : mb = bs[k] := by rw [List.getElem?_eq_getElem hk] at hb; exact (Option.some.inj hb).symm
+    rw [e, List.set_getElem_self]
+  | cons sub subs ih =>
+    intro j0 bs mb hb h hP
+    have hj : j0 < mb.length := by simp at h; omega
+    have hk : k < bs.length := (List.getElem?_eq_some_iff.1 hb).1
+    simp only [List.zipIdx_cons, List.map_cons, List.foldlM_cons, List.foldl_cons]
+    rw [hF bs mb j0 sub mb[j0] hb (List.getElem?_eq_getElem hj) (hP 0 sub _ rfl (by simp))]
+    simp only [Option.bind_eq_bind, Option.bind_some]
+    rw [ih (j0 + 1) _ (mb.set j0 (g j0 sub mb[j0])) (by simp [hk]) (by simp at h ⊢; omega)]
+    · rw [List.set_set]
+      congr 4
+      rw [List.modify_eq_set_getElem?, List.getElem?_eq_getElem hj]
+      rfl
+    · intro j sub' b hx hb'
+      have := hP (j + 1) sub' b (by simpa using hx)
+        (by rw [List.getElem?_set_ne (by omega)] at hb'; rw [← hb']; congr 1; omega)
+      rw [show j0 + 1 + j = j0 + (j + 1) by omega]; exact this
+
+
+/-- what `write_to_shared_memory` does to the members of one agent with a Dict space -/
+def memberWrite (i : Nat) (subs : List SubSpace) (mo : List (NdArr α)) (mb : List (List α)) : List (List α) :=
+  (subs.zipIdx 0).foldl (fun mb q => mb.modify q.2
+    (fun b => writeSlice b (i * shapeSize q.1.shape) (((mo[q.2]?).map (·.data)).getD []))) mb
+
+theorem gen_write_dict_eq (i n : Nat) (subss : List (List SubSpace)) (obs : List (List (NdArr α)))
+    (bufs : List (List (List α))) (hi : i < n) (hA : obs.length = subss.length) (hB : bufs.length = subss.length)
+    (hconf : ∀ (a : Nat) (subs : List SubSpace) (mo : List (NdArr α)) (mb : List (List α)),
+      subss[a]? = some subs → obs[a]? = some mo → bufs[a]? = some mb →
+        mo.length = subs.length ∧ mb.length = subs.length ∧
+        ∀ (j : Nat) (sub : SubSpace) (x : NdArr α) (b : List α), subs[j]? = some sub → mo[j]? = some x →
+          mb[j]? = some b → x.data.length = shapeSize sub.shape ∧ b.length = n * shapeSize sub.shape) :
+    write_to_shared_memory i (dictDict obs) (dictDict bufs) (dictSpaces subss) =
+      some (dictDict ((obs.zipIdx 0).foldl (fun bs p => bs.modify p.2
+        (fun mb => memberWrite i ((subss[p.2]?).getD []) p.1 mb)) bufs)) := by
+  unfold write_to_shared_memory
+  have hitems : PyDict.items (dictDict obs) = (obs.zipIdx 0).map (fun p => (p.2, Struct.dict p.1)) := by
+    unfold PyDict.items dictDict; exact items_map_some _ _ 0
+  simp only [pyItems, PyItems.items, hitems, Option.bind_eq_bind, Option.bind_some]
+  refine foldlM_pointwiseD (γ := List α) (β := NdArr α) _
+    (fun k mo mb => memberWrite i ((subss[k]?).getD []) mo mb)
+    (fun k mo mb => k < subss.length ∧ mo.length = ((subss[k]?).getD []).length ∧
+      mb.length = ((subss[k]?).getD []).length ∧
+      ∀ (j : Nat) (sub : SubSpace) (x : NdArr α) (b : List α), ((subss[k]?).getD [])[j]? = some sub → mo[j]? = some x →
+          mb[j]? = some b → x.data.length = shapeSize sub.shape ∧ b.length = n * shapeSize sub.shape)
+    ?_ obs 0 bufs (by omega) ?_
+  · intro bs k mo mb hb ⟨hk, hmo, hmb, hc⟩
+    have hsp : PyDict.get (dictSpaces subss) k = some (.dict subss[k]) := by
+      simp [PyDict.get, dictSpaces, List.getElem?_eq_getElem hk]
+    simp only [List.getElem?_eq_getElem hk, Option.getD_some] at hmo hmb hc ⊢
+    simp only [pyGetItem, PyGetItem.getItem, hsp, Option.bind_some, pyIsInstance, PyIsInstance.isInstance,
+      if_true, pySpaces, pyEnumKeys]
+    unfold memberWrite
+    rw [foldlM_members (γ := List α) _ k
+      (fun j sub b => writeSlice b (i * shapeSize sub.shape) (((mo[j]?).map (·.data)).getD []))
+      (fun j sub b => ∃ x, mo[j]? = some x ∧ x.data.length = shapeSize sub.shape ∧ b.length = n * shapeSize sub.shape)
+      ?_ subss[k] 0 bs mb hb (by omega) ?_]
+    · intro bs' mb' j sub b hb' hmbj ⟨x, hx, hxl, hbl⟩
+      have hget : PyDict.get (dictDict bs') k = some (.dict mb') := by simp [PyDict.get, dictDict, hb']
+      have hk' : k < bs'.length := (List.getElem?_eq_some_iff.1 hb').1
+      simp only [pyShape, PyShape.shape, hget, Option.bind_some, hmbj, pyGetObj, PyGetObj.getObj, hx, npAsarray,
+        NpAsarray.asarray, pyModifyItem, PyModifyItem.modifyItem, pyModifyObj, PyGetObj.modifyObj, npFlatten, pyInt,
+        npProd_eq, gen_slice0_eq, Option.map_some, Option.getD_some]
+      rw [copyto_eq_writeSlice b n _ i x.data hbl hi hxl]
+      simp [PyDict.set, dictDict, hk', List.map_set]
+    · intro j sub b hs hbj
+      simp only [Nat.zero_add] at hbj ⊢
+      have hj : j < mo.length := by
+        have := (List.getElem?_eq_some_iff.1 hs).1; omega
+      obtain ⟨h1, h2⟩ := hc j sub mo[j] b hs (List.getElem?_eq_getElem hj) hbj
+      exact ⟨mo[j], List.getElem?_eq_getElem hj, h1, h2⟩
+  · intro j mo mb hx hb
+    have hj : j < subss.length := by
+      have := (List.getElem?_eq_some_iff.1 hx).1; omega
+    simp only [Nat.zero_add] at hb ⊢
+    obtain ⟨h1, h2, h3⟩ := hconf j subss[j] mo mb (List.getElem?_eq_getElem hj) hx hb
+    simp only [List.getElem?_eq_getElem hj, Option.getD_some]
+    exact ⟨hj, h1, h2, h3⟩
+
+
+/-- after the write, the members of agent `a`'s entry -/
+theorem gen_write_dict_getElem? (i : Nat) (subss : List (List SubSpace)) (obs : List (List (NdArr α)))
+    (bufs : List (List (List α))) (a : Nat) :
+    ((obs.zipIdx 0).foldl (fun bs p => bs.modify p.2
+        (fun mb => memberWrite i ((subss[p.2]?).getD []) p.1 mb)) bufs)[a]? =
+      match obs[a]? with
+      | some mo => bufs[a]?.map (fun mb => memberWrite i ((subss[a]?).getD []) mo mb)
+      | none => bufs[a]? := by
+  rw [foldl_modify_getElem? (fun k (mo : List (NdArr α)) mb => memberWrite i ((subss[k]?).getD []) mo mb)]
+  simp only [Nat.zero_le, if_true, Nat.sub_zero]
+  cases obs[a]? <;> rfl
+
+/-- member `j` of an agent's entry after the write: its old buffer with the flattened member observation at the
+    model slice of worker `i` -/
+theorem memberWrite_getElem? (i : Nat) (subs : List SubSpace) (mo : List (NdArr α)) (mb : List (List α)) (j : Nat) :
+    (memberWrite i subs mo mb)[j]? =
+      match subs[j]? with
+      | some sub => mb[j]?.map (fun b => writeSlice b (i * shapeSize sub.shape) (((mo[j]?).map (·.data)).getD []))
+      | none => mb[j]? := by
+  unfold memberWrite
+  rw [foldl_modify_getElem? (fun j (sub : SubSpace) b =>
+    writeSlice b (i * shapeSize sub.shape) (((mo[j]?).map (·.data)).getD []))]
+  simp only [Nat.zero_le, if_true, Nat.sub_zero]
+  cases subs[j]? <;> rfl
+
+/-- the hypotheses of `gen_write_dict_eq` hold on an instance (one agent, members of sizes 2 and 1, two envs) -/
+example : write_to_shared_memory 1 (dictDict [[(⟨[2], [7, 8]⟩ : NdArr Nat), ⟨[], [9]⟩]])
+    (dictDict [[[0, 0, 0, 0], [0, 0]]]) (dictSpaces [[⟨[2]⟩, ⟨[]⟩]]) = some (dictDict [[[0, 0, 7, 8], [0, 9]]]) := by
+  rw [gen_write_dict_eq 1 2 [[⟨[2]⟩, ⟨[]⟩]] [[(⟨[2], [7, 8]⟩ : NdArr Nat), ⟨[], [9]⟩]] [[[0, 0, 0, 0], [0, 0]]]
+    (by decide) rfl rfl ?_]
+  · decide
+  · intro a subs mo mb hs ho hb
+    rcases a with _ | a
+    · simp only [List.getElem?_cons_zero, Option.some.injEq] at hs ho hb
+      subst hs ho hb
+      refine ⟨rfl, rfl, ?_⟩
+      intro j sub x b hs hx hb
+      rcases j with _ | _ | j
+      · simp only [List.getElem?_cons_zero, Option.some.injEq] at hs hx hb
+        subst hs hx hb; decide
+      · simp only [List.getElem?_cons_succ, List.getElem?_cons_zero, Option.some.injEq] at hs hx hb
+        subst hs hx hb; decide
+      · simp at hs
+    · simp at hs
 
 end VecEnv
